@@ -364,11 +364,444 @@ def gen_floordiv(repo=REPO):
 
 
 # --------------------------------------------------------------------------
+# declarative data: SI prefixes, predefined catalogue, temperature table,
+# documentation tables
+# --------------------------------------------------------------------------
+
+def lean_str(s):
+    return '"' + s.replace("\\", "\\\\").replace('"', '\\"') + '"'
+
+
+def lean_rat(fr):
+    fr = Fraction(fr)
+    if fr.denominator == 1:
+        return f"({fr.numerator} : Rat)"
+    return f"(({fr.numerator} : Rat) / {fr.denominator})"
+
+
+def parse_prefixes(repo=REPO):
+    """NAME -> (name, abbr, exp) from si_prefixes.py (SIPrefix(...) calls)."""
+    path = os.path.join(repo, "src", "quantity", "si_prefixes.py")
+    with open(path, encoding="utf-8") as f:
+        tree = ast.parse(f.read())
+    out = {}
+    factor_src = None
+    for node in tree.body:
+        if isinstance(node, ast.ClassDef) and node.name == "SIPrefix":
+            for item in node.body:
+                if isinstance(item, ast.FunctionDef) and item.name == "factor":
+                    factor_src = ast.unparse(item.body[-1])
+        if (isinstance(node, ast.Assign) and len(node.targets) == 1
+                and isinstance(node.targets[0], ast.Name)
+                and isinstance(node.value, ast.Call)
+                and isinstance(node.value.func, ast.Name)
+                and node.value.func.id == "SIPrefix"):
+            args = [ast.literal_eval(a) for a in node.value.args]
+            if len(args) != 3 or not isinstance(args[2], int):
+                raise Untranslatable(f"si_prefixes.py line {node.lineno}")
+            out[node.targets[0].id] = tuple(args)
+    if factor_src != "return Decimal(10) ** self.exp":
+        raise Untranslatable("SIPrefix.factor is no longer "
+                             f"'Decimal(10) ** self.exp': {factor_src!r}")
+    if not out:
+        raise Untranslatable("no SIPrefix definitions found")
+    return out
+
+
+def gen_prefixes(repo=REPO):
+    pf = parse_prefixes(repo)
+    out = HEADER.format(src="src/quantity/si_prefixes.py")
+    out += "import QuantityModel.Model.Basic\nnamespace QM.Gen\n\n"
+    out += ("/-- (constant, name, abbreviation, exponent); "
+            "`factor = Decimal(10) ** exp` -/\n")
+    out += "def siPrefixes : List (String × String × String × Int) := [\n"
+    out += ",\n".join(f"  ({lean_str(k)}, {lean_str(n)}, {lean_str(a)}, {e})"
+                      for k, (n, a, e) in pf.items())
+    out += "]\n\nend QM.Gen\n"
+    return out
+
+
+SUPS = {1: "", 2: "²", 3: "³", 4: "⁴", 5: "⁵",
+        6: "⁶", 7: "⁷", 8: "⁸", 9: "⁹"}
+
+
+def render_symbol(items):
+    pos, neg = [], []
+    for sym, e in items:
+        parts = sym.split("/")
+        if len(parts) > 2 or abs(e) not in SUPS:
+            raise Untranslatable(f"cannot render default symbol of {items}")
+        for i, p in enumerate(parts):
+            ee = e if i == 0 else -e
+            (pos if ee > 0 else neg).append(p + SUPS[abs(e)])
+    out = "·".join(pos) if pos else "1"
+    if neg:
+        out += "/" + "·".join(neg)
+    return out
+
+
+class Catalogue:
+    """Symbolic execution of predefined.py as a declaration script."""
+
+    def __init__(self, repo=REPO):
+        self.prefixes = {k: Fraction(10) ** e
+                         for k, (_, _, e) in parse_prefixes(repo).items()}
+        self.classes = {}      # python name -> dict(id, ref(sym|None), items)
+        self.units = {}        # python var -> symbol
+        self.unit_ids = {}     # symbol -> id
+        self.unit_cls = {}     # symbol -> class name
+        self.steps = []        # protocol ops
+        self.lean = []         # Lean CatStep constructors
+        self.temp_rows = None
+        self.temp_registered = False
+        path = os.path.join(repo, "src", "quantity", "predefined.py")
+        with open(path, encoding="utf-8") as f:
+            self.src = f.read()
+        self.tree = ast.parse(self.src)
+        self.doc = ast.get_docstring(self.tree, clean=False) or ""
+        self.class_ids = {"Quantity": 0}
+        self.run()
+
+    # -- numbers (Python semantics, exact) --------------------------------
+    def num(self, e):
+        if isinstance(e, ast.Constant) and isinstance(e.value, (int, float)) \
+                and not isinstance(e.value, bool):
+            return Fraction(e.value)          # a float literal: exact binary
+        if isinstance(e, ast.UnaryOp) and isinstance(e.op, ast.USub):
+            return -self.num(e.operand)
+        if isinstance(e, ast.Call) and isinstance(e.func, ast.Name) \
+                and not e.keywords:
+            fn, args = e.func.id, e.args
+            if fn == "Decimal" and len(args) == 1:
+                a = args[0]
+                if isinstance(a, ast.Constant) and isinstance(a.value, str):
+                    try:
+                        return Fraction(a.value)
+                    except ValueError:
+                        pass
+                else:
+                    return self.num(a)
+            if fn == "Fraction" and len(args) == 2:
+                return Fraction(self.num(args[0]), self.num(args[1]))
+            if fn == "Fraction" and len(args) == 1:
+                return self.num(args[0])
+        if isinstance(e, ast.BinOp):
+            if isinstance(e.op, ast.Pow):
+                b, x = self.num(e.left), self.num(e.right)
+                if x.denominator == 1:
+                    return b ** int(x)
+            if isinstance(e.op, ast.Mult):
+                return self.num(e.left) * self.num(e.right)
+            if isinstance(e.op, ast.Div):
+                return self.num(e.left) / self.num(e.right)
+        if isinstance(e, ast.Name) and e.id in self.prefixes:
+            return self.prefixes[e.id]
+        raise Untranslatable(f"predefined.py line {e.lineno}: unsupported "
+                             f"number {ast.unparse(e)}")
+
+    def is_unit(self, e):
+        return isinstance(e, ast.Name) and e.id in self.units
+
+    # -- class definition terms -------------------------------------------
+    def cls_items(self, e, sign=1):
+        if isinstance(e, ast.Name) and e.id in self.classes:
+            return [(e.id, sign)]
+        if isinstance(e, ast.BinOp):
+            if isinstance(e.op, ast.Mult):
+                return self.cls_items(e.left, sign) + self.cls_items(e.right, sign)
+            if isinstance(e.op, ast.Div):
+                return self.cls_items(e.left, sign) + self.cls_items(e.right, -sign)
+            if isinstance(e.op, ast.Pow):
+                n = self.num(e.right)
+                if n.denominator == 1:
+                    return [(c, x * int(n)) for c, x in self.cls_items(e.left, sign)]
+        raise Untranslatable(f"predefined.py line {e.lineno}: unsupported "
+                             f"class definition {ast.unparse(e)}")
+
+    def add_unit(self, var, sym, cls):
+        if sym in self.unit_ids:
+            raise Untranslatable(f"symbol {sym!r} declared twice")
+        self.unit_ids[sym] = len(self.unit_ids)
+        self.unit_cls[sym] = cls
+        if var:
+            self.units[var] = sym
+
+    def fmt_uitems(self, num, items):
+        parts = []
+        if num is not None:
+            parts.append(f"n:{num.numerator}/{num.denominator}^1")
+        parts += [f"u:{self.units[v]}^{e}" for v, e in items]
+        return ";".join(parts) if parts else "-"
+
+    def lean_items(self, num, items):
+        parts = []
+        if num is not None:
+            parts.append(f"(.num {lean_rat(num)}, 1)")
+        parts += [f"(.atom {self.unit_ids[self.units[v]]}, {e})" for v, e in items]
+        return "[" + ", ".join(parts) + "]"
+
+    # -- statements --------------------------------------------------------
+    def run(self):
+        for node in self.tree.body:
+            self.stmt(node)
+
+    def kw(self, call_or_cls):
+        kws = {}
+        for k in call_or_cls.keywords:
+            if k.arg is None:
+                raise Untranslatable("**kwargs in predefined.py")
+            kws[k.arg] = k.value
+        return kws
+
+    def stmt(self, node):
+        if isinstance(node, ast.Expr) and isinstance(node.value, ast.Constant):
+            return
+        if isinstance(node, (ast.Import, ast.ImportFrom, ast.Assert)):
+            return
+        if isinstance(node, ast.ClassDef):
+            return self.classdef(node)
+        if isinstance(node, ast.Assign) and len(node.targets) == 1 \
+                and isinstance(node.targets[0], ast.Name):
+            var, val = node.targets[0].id, node.value
+            if var == "__all__":
+                return
+            if var == "_temp_conv":
+                return self.temp_table(val)
+            # X = Cls.ref_unit
+            if isinstance(val, ast.Attribute) and val.attr == "ref_unit" \
+                    and isinstance(val.value, ast.Name) \
+                    and val.value.id in self.classes:
+                ref = self.classes[val.value.id]["ref"]
+                if ref is None:
+                    raise Untranslatable(f"{val.value.id} has no reference unit")
+                self.units[var] = ref
+                return
+            if isinstance(val, ast.Call) and isinstance(val.func, ast.Attribute) \
+                    and isinstance(val.func.value, ast.Name) \
+                    and val.func.value.id in self.classes:
+                cls, meth = val.func.value.id, val.func.attr
+                if meth == "new_unit":
+                    return self.new_unit(var, cls, val)
+                if meth == "derive_unit_from":
+                    return self.derive(var, cls, val)
+        if isinstance(node, ast.Expr) and isinstance(node.value, ast.Call):
+            c = node.value
+            if ast.unparse(c) == "Temperature.register_converter(TableConverter(_temp_conv))":
+                self.temp_registered = True
+                return
+        raise Untranslatable(f"predefined.py line {node.lineno}: unsupported "
+                             f"statement {ast.unparse(node)[:80]}")
+
+    def classdef(self, node):
+        if [ast.unparse(b) for b in node.bases] != ["Quantity"]:
+            raise Untranslatable(f"class {node.name}: unexpected bases")
+        kws = self.kw(node)
+        extra = set(kws) - {"define_as", "ref_unit_name", "ref_unit_symbol", "quantum"}
+        if extra:
+            raise Untranslatable(f"class {node.name}: keywords {extra}")
+        items = self.cls_items(kws["define_as"]) if "define_as" in kws else None
+        sym = ast.literal_eval(kws["ref_unit_symbol"]) if "ref_unit_symbol" in kws else None
+        has_name = "ref_unit_name" in kws
+        quantum = self.num(kws["quantum"]) if "quantum" in kws else None
+        ref = sym
+        if not sym and items is not None and all(self.classes[c]["ref"] for c, _ in items):
+            merged = {}
+            for c, e in items:
+                merged[c] = merged.get(c, 0) + e
+            ref = render_symbol([(self.classes[c]["ref"], e)
+                                 for c, e in merged.items() if e != 0])
+        cid = len(self.class_ids)
+        self.class_ids[node.name] = cid
+        self.classes[node.name] = dict(id=cid, ref=ref or None, items=items)
+        cdef = ";".join(f"c:{c}^{e}" for c, e in items) if items else "-"
+        self.steps.append(["decl_class", node.name, cdef, sym if sym else "-",
+                           "1" if has_name else "0",
+                           "-" if quantum is None else f"{quantum.numerator}/{quantum.denominator}"])
+        lean_def = "none" if items is None else "(some [" + ", ".join(
+            f"(.atom {self.class_ids[c]}, {e})" for c, e in items) + "])"
+        self.lean.append(f".cls {lean_str(node.name)} {lean_def} "
+                         f"{'(some ' + lean_str(sym) + ')' if sym else 'none'} "
+                         f"{'true' if has_name else 'false'} "
+                         f"{'none' if quantum is None else '(some ' + lean_rat(quantum) + ')'}")
+        if ref:
+            self.add_unit(None, ref, node.name)
+
+    def new_unit(self, var, cls, call):
+        args = list(call.args)
+        kws = self.kw(call)
+        names = ["symbol", "name", "define_as"]
+        for i, a in enumerate(args):
+            kws[names[i]] = a
+        sym = ast.literal_eval(kws["symbol"])
+        d = kws.get("define_as")
+        cid = self.classes[cls]["id"]
+        if d is None:
+            self.steps.append(["new_unit", cls, sym, "none"])
+            self.lean.append(f".unitNone {cid} {lean_str(sym)}")
+        elif isinstance(d, ast.Call) and ast.unparse(d.func) == "Term":
+            tup = ast.literal_eval(ast.unparse(d.args[0]).replace("(", "(").replace(")", ")")) \
+                if False else None
+            items = []
+            for elt in d.args[0].elts:
+                u, e = elt.elts
+                if not self.is_unit(u):
+                    raise Untranslatable(f"line {d.lineno}: Term element {ast.unparse(u)}")
+                items.append((u.id, int(self.num(e))))
+            self.steps.append(["new_unit", cls, sym, "term", self.fmt_uitems(None, items)])
+            self.lean.append(f".unitTerm {cid} {lean_str(sym)} {self.lean_items(None, items)}")
+        elif isinstance(d, ast.BinOp) and isinstance(d.op, ast.Mult) and self.is_unit(d.right):
+            k = self.num(d.left)
+            usym = self.units[d.right.id]
+            self.steps.append(["new_unit", cls, sym, "qty", f"{k.numerator}/{k.denominator}",
+                               usym, "ROUND_HALF_EVEN"])
+            self.lean.append(f".unitQty {cid} {lean_str(sym)} {lean_rat(k)} {self.unit_ids[usym]}")
+        else:
+            raise Untranslatable(f"predefined.py line {call.lineno}: unsupported "
+                                 f"definition {ast.unparse(d)}")
+        self.add_unit(var, sym, cls)
+
+    def derive(self, var, cls, call):
+        kws = self.kw(call)
+        for a in call.args:
+            if not self.is_unit(a):
+                raise Untranslatable(f"line {call.lineno}: {ast.unparse(a)} is not a unit")
+        args = [a.id for a in call.args]
+        sym = ast.literal_eval(kws["symbol"]) if "symbol" in kws else None
+        items = self.classes[cls]["items"]
+        if items is None or len(items) != len(args):
+            raise Untranslatable(f"line {call.lineno}: derive_unit_from arity")
+        auto = sym or render_symbol([(self.units[a], e) for a, (_, e) in zip(args, items)])
+        cid = self.classes[cls]["id"]
+        self.steps.append(["derive_unit", cls, ",".join(self.units[a] for a in args),
+                           sym if sym else "-"])
+        self.lean.append(f".derive {cid} [{', '.join(str(self.unit_ids[self.units[a]]) for a in args)}] "
+                         f"{'(some ' + lean_str(sym) + ')' if sym else 'none'}")
+        self.add_unit(var, auto, cls)
+
+    def temp_table(self, val):
+        rows = []
+        if not isinstance(val, ast.List):
+            raise Untranslatable("_temp_conv is not a list literal")
+        for elt in val.elts:
+            f, t, k, o = elt.elts
+            if not (self.is_unit(f) and self.is_unit(t)):
+                raise Untranslatable("_temp_conv row units")
+            rows.append((self.units[f.id], self.units[t.id], self.num(k), self.num(o)))
+        self.temp_rows = rows
+
+
+def gen_catalogue(repo=REPO):
+    cat = Catalogue(repo)
+    out = HEADER.format(src="src/quantity/predefined.py (declaration script)")
+    out += ("import QuantityModel.Model.Catalogue\nnamespace QM.Gen\nopen QM\n\n"
+            "/-- the declarations of predefined.py in source order -/\n"
+            "def catalogueSteps : List CatStep := [\n  ")
+    out += ",\n  ".join(cat.lean)
+    out += "]\n\n"
+    out += ("/-- symbols in creation order (unit id = position) -/\n"
+            "def catalogueSymbols : List String := [" +
+            ", ".join(lean_str(s) for s in cat.unit_ids) + "]\n\n")
+    out += "end QM.Gen\n"
+    return out
+
+
+def catalogue_ops(repo=REPO):
+    """Protocol lines that replay predefined.py on the model."""
+    cat = Catalogue(repo)
+    ops = list(cat.steps)
+    if cat.temp_rows is not None and cat.temp_registered:
+        ops.append(["conv_table", "Temperature",
+                    ";".join(f"{f}>{t}:{k.numerator}/{k.denominator}:{o.numerator}/{o.denominator}"
+                             for f, t, k, o in cat.temp_rows)])
+    return ops, cat
+
+
+def gen_temptable(repo=REPO):
+    cat = Catalogue(repo)
+    if cat.temp_rows is None or not cat.temp_registered:
+        raise Untranslatable("temperature table / its registration not found")
+    out = HEADER.format(src="src/quantity/predefined.py (_temp_conv)")
+    out += "import QuantityModel.Model.Basic\nnamespace QM.Gen\n\n"
+    out += ("/-- rows (from, to, factor, offset): "
+            "`to = from * factor + offset` -/\n"
+            "def tempTable : List (String × String × Rat × Rat) := [\n  ")
+    out += ",\n  ".join(f"({lean_str(f)}, {lean_str(t)}, {lean_rat(k)}, {lean_rat(o)})"
+                        for f, t, k, o in cat.temp_rows)
+    out += "]\n\nend QM.Gen\n"
+    return out
+
+
+def parse_doc_tables(doc):
+    """Rows of the reST tables of predefined.__doc__:
+    (section, symbol, name, definition, equivalent-text)."""
+    rows, section, in_table, header = [], None, False, None
+    lines = doc.splitlines()
+    for i, line in enumerate(lines):
+        if i + 1 < len(lines) and set(lines[i + 1]) == {"^"} and line.strip():
+            section = line.strip()
+        if line.startswith("======"):
+            cols = [(m.start(), m.end()) for m in re.finditer(r"=+", line)]
+            if not in_table:
+                in_table, header, hcols = True, None, cols
+            elif header is None:
+                pass
+            continue
+        if in_table and header is None:
+            header = line
+            continue
+        if in_table:
+            if not line.strip():
+                in_table = False
+                continue
+            cells = [line[a:(b if j + 1 < len(hcols) else None)].strip()
+                     for j, (a, b) in enumerate(hcols)]
+            rows.append((section, header, cells))
+        if not line.strip():
+            in_table = False
+    return rows
+
+
+def gen_doctables(repo=REPO):
+    cat = Catalogue(repo)
+    rows = parse_doc_tables(cat.doc)
+    lin = []
+    for section, header, cells in rows:
+        if "Equivalent in" in header and len(cells) == 4:
+            sym, name, definition, eq = cells
+            try:
+                val = Fraction(eq)
+            except ValueError:
+                raise Untranslatable(f"doc table {section}: equivalent {eq!r}")
+            m = re.search(r"Equivalent in '([^']+)'", header)
+            lin.append((section, sym, m.group(1), val))
+    if len(lin) < 50:
+        raise Untranslatable(f"only {len(lin)} documentation rows found")
+    out = HEADER.format(src="src/quantity/predefined.py (module docstring)")
+    out += "import QuantityModel.Model.Basic\nnamespace QM.Gen\n\n"
+    out += ("/-- (section, symbol, reference symbol, tabulated equivalent) -/\n"
+            "def docRows : List (String × String × String × Rat) := [\n  ")
+    out += ",\n  ".join(f"({lean_str(a)}, {lean_str(b)}, {lean_str(c)}, {lean_rat(d)})"
+                        for a, b, c, d in lin)
+    out += "]\n\n"
+    temp = [cells for section, header, cells in rows
+            if section == "Temperature" and "Equivalents" in header]
+    out += ("/-- temperature rows: (symbol, text of the equivalents) -/\n"
+            "def docTempRows : List (String × String) := [\n  ")
+    out += ",\n  ".join(f"({lean_str(c[0])}, {lean_str(c[2])})" for c in temp)
+    out += "]\n\nend QM.Gen\n"
+    return out
+
+
+# --------------------------------------------------------------------------
 # driver
 # --------------------------------------------------------------------------
 
 GENERATORS = {
     "FloorDiv.lean": gen_floordiv,
+    "Prefixes.lean": gen_prefixes,
+    "Catalogue.lean": gen_catalogue,
+    "TempTable.lean": gen_temptable,
+    "DocTables.lean": gen_doctables,
 }
 
 
